@@ -208,6 +208,10 @@ def View.unregister (vw : View) (seg : Nat) : View :=
     if x.count = 1 ∧ vw.cur ≠ some seg then { vw with segs := vw.segs.filter (·.id ≠ seg) }
     else { vw with segs := decV vw.segs seg }
 
+/-- bookkeeping of the user of a view: the offsets it holds -/
+def View.addReg (vw : View) (r : Reg) : View := { vw with regs := r :: vw.regs }
+def View.delReg (vw : View) (l : Nat) : View := { vw with regs := vw.regs.filter (·.label ≠ l) }
+
 /-! ### operations of a history -/
 inductive Op where
   | alloc (l size align : Nat)
@@ -321,8 +325,7 @@ def step (s : St) : Op → St × Out
           match vw.register ((getSeg s.segs c.seg).isSome) c.seg with
           | none => (s, .err .doesNotExist)
           | some vw' =>
-            let r : Reg := ⟨l, c.seg, c.off⟩
-            ({ s with views := s.views.set v { vw' with regs := r :: vw'.regs } }, .ok)
+            ({ s with views := s.views.set v (vw'.addReg ⟨l, c.seg, c.off⟩) }, .ok)
   | .vread v l =>
     match s.views[v]? with
     | none => (s, .none)
@@ -337,8 +340,7 @@ def step (s : St) : Op → St × Out
       match vw.regs.find? (·.label = l) with
       | none => (s, .none)
       | some r =>
-        let vw' := vw.unregister r.seg
-        ({ s with views := s.views.set v { vw' with regs := vw'.regs.filter (·.label ≠ l) } }, .ok)
+        ({ s with views := s.views.set v ((vw.unregister r.seg).delReg l) }, .ok)
   | .segments => (s, .num s.segs.length)
   | .vsegments v =>
     match s.views[v]? with
